@@ -21,6 +21,9 @@ type execExtra struct {
 	pendingGuardHeaps []string
 	rangeKeys         map[*ssa.Range]string
 	havocAll          bool
+	writtenRefs       map[string][]*Node
+	writtenWhole      map[string]bool
+	lastRegionStart   *State
 	closures          map[*Node]*ClosureV
 	phiIn             map[*ssa.BasicBlock][]phiEdge
 }
